@@ -134,7 +134,10 @@ func nillable(t types.Type) bool {
 	return false
 }
 
-// ValidityLints evaluates L1-L3 on fn.
+// ValidityLints evaluates L1-L4 on fn. (Branches on constants, tautological
+// length tests and never-written local maps were tried as further rules and
+// dropped: they fired on behaviour-equivalent edits and on constants produced
+// by inlining, for a gain of 9 of 397 reviewed mutants.)
 func ValidityLints(fn *ssa.Function) []LintFinding {
 	var out []LintFinding
 	if len(fn.Blocks) == 0 {
